@@ -1,6 +1,7 @@
 package main
 
 import (
+	"regexp"
 	"encoding/json"
 	"errors"
 	"fmt"
@@ -85,6 +86,8 @@ type structPayload struct {
 }
 
 type harnessAbort struct{ why string }
+
+var catchParamRe = regexp.MustCompile(`catch\((\w+)\)`)
 
 type stepRun struct {
 	c        *StepCase
@@ -937,6 +940,27 @@ func postChecks(c *StepCase, res *RunResult) *Violation {
 		}
 		if d, l := vm.VerifScopeDepth(), vm.VerifLabelCount(); d != 0 || l != 0 {
 			return viol("C18", "not_at_rest", "after the second interrupted script: scope depth %d, labels %d", d, l)
+		}
+	}
+	// a catch parameter is scoped to its catch block: whatever way the program
+	// ended, none of its catch parameters is visible to a later script
+	if names := catchParamRe.FindAllStringSubmatch(c.Decls+c.Body+c.Program, -1); len(names) > 0 {
+		var probe []string
+		seen := map[string]bool{}
+		for _, m := range names {
+			if !seen[m[1]] {
+				seen[m[1]] = true
+				probe = append(probe, "typeof "+m[1])
+			}
+		}
+		pv1, err, p, pv := protectedRun(vm, "["+strings.Join(probe, ",")+"].join()")
+		if p || err != nil {
+			return viol("C18", "scope_probe_failed", "err=%v panic=%v", err, pv)
+		}
+		for i, ty := range strings.Split(pv1.String(), ",") {
+			if ty != "undefined" {
+				return viol("C18", "catch_parameter_leaked", "after the exit `%s` is %q for a later script (a catch parameter is visible only inside its catch block)", probe[i], ty)
+			}
 		}
 	}
 	// a debugger handler stays installed whatever way the previous script ended
